@@ -701,6 +701,8 @@ std::string sqf::parser::preprocessor::impl_default::instance::handle_macro(::sq
 
 std::string sqf::parser::preprocessor::impl_default::instance::parse_ppinstruction(::sqf::runtime::runtime& runtime, preprocessorfileinfo& fileinfo)
 {
+    // diagnostics about the directive name the line of the directive, not the one after it
+    auto directive_dinf = fileinfo.to_diag_info();
     auto inst = fileinfo.get_word();
     std::string line{ trim(fileinfo.get_line(true)) };
     std::transform(inst.begin(), inst.end(), inst.begin(), [](char& c) { return (char)std::toupper((int)c); });
@@ -718,7 +720,7 @@ std::string sqf::parser::preprocessor::impl_default::instance::parse_ppinstructi
             return c == '"';
         });
         if (std::distance(endIter, line.end()) > 1)
-            log(err::UnexpectedDataAfterInclude(fileinfo.to_diag_info()));
+            log(err::UnexpectedDataAfterInclude(directive_dinf));
         line.erase(endIter, line.end());
         try
         {
@@ -726,7 +728,7 @@ std::string sqf::parser::preprocessor::impl_default::instance::parse_ppinstructi
             if (!include_path_info.has_value())
             {
                 m_errflag = true;
-                log(err::IncludeFailed(fileinfo.to_diag_info(), line, "FileIO returned no file."));
+                log(err::IncludeFailed(directive_dinf, line, "FileIO returned no file."));
                 return "";
             }
             const auto& physical = include_path_info->physical;
@@ -740,7 +742,7 @@ std::string sqf::parser::preprocessor::impl_default::instance::parse_ppinstructi
                 {
                     includeTree << i << ". " << m_file_scopes[i].path.physical << " [" << m_file_scopes[i].path.virtual_ << "]\n";
                 }
-                log(err::RecursiveInclude(fileinfo.to_diag_info(), includeTree.str()));
+                log(err::RecursiveInclude(directive_dinf, includeTree.str()));
                 return "";
             }
             preprocessorfileinfo otherfinfo(*include_path_info);
@@ -763,7 +765,7 @@ std::string sqf::parser::preprocessor::impl_default::instance::parse_ppinstructi
         catch (const std::runtime_error& ex)
         {
             m_errflag = true;
-            log(err::IncludeFailed(fileinfo.to_diag_info(), line, ex));
+            log(err::IncludeFailed(directive_dinf, line, ex));
             return "";
         }
     }
@@ -791,7 +793,7 @@ std::string sqf::parser::preprocessor::impl_default::instance::parse_ppinstructi
         { // Empty define
             if (try_get_macro(line).has_value())
             {
-                log(err::MacroDefinedTwice(fileinfo.to_diag_info(), line));
+                log(err::MacroDefinedTwice(directive_dinf, line));
             }
             m_macros[line] = { fileinfo, line };
 #ifdef DF__SQF_PREPROC__TRACE_MACRO_PARSE
@@ -808,7 +810,7 @@ std::string sqf::parser::preprocessor::impl_default::instance::parse_ppinstructi
                 auto name_tmp = line.substr(0, spaceIndex);
                 if (try_get_macro(name_tmp).has_value())
                 {
-                    log(err::MacroDefinedTwice(fileinfo.to_diag_info(), name_tmp));
+                    log(err::MacroDefinedTwice(directive_dinf, name_tmp));
                 }
                 std::string content(trim(line.substr(line[spaceIndex] == ' ' ? spaceIndex + 1 : spaceIndex))); // Special magic for '#define macro\'
                 m_macros[name_tmp] = { fileinfo, name_tmp, content };
@@ -824,7 +826,7 @@ std::string sqf::parser::preprocessor::impl_default::instance::parse_ppinstructi
                 auto name_tmp = line.substr(0, bracketsIndex);
                 if (try_get_macro(name_tmp).has_value())
                 {
-                    log(err::MacroDefinedTwice(fileinfo.to_diag_info(), name_tmp));
+                    log(err::MacroDefinedTwice(directive_dinf, name_tmp));
                 }
                 auto bracketsEndIndex = line.find(')');
                 auto argumentsString = line.substr(bracketsIndex + 1, bracketsEndIndex);
@@ -882,7 +884,7 @@ std::string sqf::parser::preprocessor::impl_default::instance::parse_ppinstructi
         auto res = m_macros.find(static_cast<std::string>(line));
         if (res == m_macros.end())
         {
-            log(err::MacroNotFound(fileinfo.to_diag_info(), line));
+            log(err::MacroNotFound(directive_dinf, line));
         }
         else
         {
@@ -894,7 +896,7 @@ std::string sqf::parser::preprocessor::impl_default::instance::parse_ppinstructi
     { // #ifdef TEST
         if (!current_file_scope().conditions.empty())
         {
-            log(err::UnexpectedIfdef(fileinfo.to_diag_info()));
+            log(err::UnexpectedIfdef(directive_dinf));
         }
         auto res = m_macros.find(static_cast<std::string>(line));
         // a conditional inside an inactive branch stays inactive, whatever its own condition says
@@ -907,7 +909,7 @@ std::string sqf::parser::preprocessor::impl_default::instance::parse_ppinstructi
     { // #ifndef TEST
         if (!current_file_scope().conditions.empty())
         {
-            log(err::UnexpectedIfndef(fileinfo.to_diag_info()));
+            log(err::UnexpectedIfndef(directive_dinf));
         }
         auto res = m_macros.find(static_cast<std::string>(line));
         // a conditional inside an inactive branch stays inactive, whatever its own condition says
@@ -921,7 +923,7 @@ std::string sqf::parser::preprocessor::impl_default::instance::parse_ppinstructi
         if (current_file_scope().conditions.empty())
         {
             m_errflag = true;
-            log(err::UnexpectedElse(fileinfo.to_diag_info()));
+            log(err::UnexpectedElse(directive_dinf));
             return "";
         }
         current_file_scope().conditions.back().condition = !current_file_scope().conditions.back().condition;
@@ -933,7 +935,7 @@ std::string sqf::parser::preprocessor::impl_default::instance::parse_ppinstructi
         if (current_file_scope().conditions.empty())
         {
             m_errflag = true;
-            log(err::UnexpectedEndif(fileinfo.to_diag_info()));
+            log(err::UnexpectedEndif(directive_dinf));
             return "";
         }
         current_file_scope().conditions.pop_back();
@@ -969,11 +971,11 @@ std::string sqf::parser::preprocessor::impl_default::instance::parse_ppinstructi
                     "        " <<
                     "    " << "\x1B[36m" << line << "\033[0m PRAGMA " << line << std::endl;
 #endif // DF__SQF_PREPROC__TRACE_MACRO_PARSE
-                p.value()(runtime, fileinfo.to_diag_info(), fileinfo.to_pathinfo(), {});
+                p.value()(runtime, directive_dinf, fileinfo.to_pathinfo(), {});
             }
             else
             {
-                log(err::UnknownPragma(fileinfo.to_diag_info(), line));
+                log(err::UnknownPragma(directive_dinf, line));
             }
 
         }
@@ -990,11 +992,11 @@ std::string sqf::parser::preprocessor::impl_default::instance::parse_ppinstructi
                     "        " <<
                     "    " << "\x1B[36m" << line << "\033[0m PRAGMA " << line << std::endl;
 #endif // DF__SQF_PREPROC__TRACE_MACRO_PARSE
-                p.value()(runtime, fileinfo.to_diag_info(), fileinfo.to_pathinfo(), {});
+                p.value()(runtime, directive_dinf, fileinfo.to_pathinfo(), {});
             }
             else
             {
-                log(err::UnknownPragma(fileinfo.to_diag_info(), name_tmp));
+                log(err::UnknownPragma(directive_dinf, name_tmp));
             }
         }
         return "\n";
@@ -1002,7 +1004,7 @@ std::string sqf::parser::preprocessor::impl_default::instance::parse_ppinstructi
     else
     {
         m_errflag = true;
-        log(err::UnknownInstruction(fileinfo.to_diag_info(), inst));
+        log(err::UnknownInstruction(directive_dinf, inst));
         return "";
     }
 }
@@ -1026,6 +1028,8 @@ std::string sqf::parser::preprocessor::impl_default::instance::parse_file(::sqf:
             }
             if (current_file_scope().conditions.empty() || current_file_scope().conditions.back().allow_write)
                 sstream << c;
+            else if (c == '\n')
+                sstream << c; // an inactive branch still keeps its line breaks, also those inside of a string
             continue;
         }
         switch (c)
@@ -1079,12 +1083,20 @@ std::string sqf::parser::preprocessor::impl_default::instance::parse_file(::sqf:
                         if (m.has_value())
                         {
                             fileinfo.move_back();
+                            auto line_before = fileinfo.line;
                             auto res = handle_macro(runtime, fileinfo, fileinfo, m.value(), empty_parammap);
                             if (m_errflag)
                             {
                                 return res;
                             }
                             sstream << res;
+                            // Line breaks inside the argument list that the expansion did not reproduce
+                            // are added behind it, so that every following line keeps its line number.
+                            auto reproduced = static_cast<size_t>(std::count(res.begin(), res.end(), '\n'));
+                            for (auto l = line_before + reproduced; l < fileinfo.line; l++)
+                            {
+                                sstream << '\n';
+                            }
                         }
                         else
                         {
